@@ -479,6 +479,34 @@ func c20(c *Ctx) {
 					}
 					c.R.Count("example_fields_checked", 1)
 				}
+				// concurrent requests to the same mock server (the race detector watches; every answer must be a 200)
+				if okAll && (len(u.mc.Examples) > 0 || strings.HasPrefix(caseID, "mock/nested") || strings.HasPrefix(caseID, "mock/two-services")) {
+					var calls []map[string]any
+					for k := 0; k < 48; k++ {
+						rc := map[string]any{"method": verb, "target": target, "hdr": []map[string]string{{"K": "Content-Type", "V": "application/json"}}}
+						if body != nil {
+							rc["body"] = b64(body)
+						}
+						calls = append(calls, map[string]any{"raw": rc})
+					}
+					_, bev, berr := ch.Do(map[string]any{"op": "burst", "id": newID("mb"), "burst": map[string]any{"url": gs.URL, "srv": gs.ID, "calls": calls, "parallel": 16, "timeout_ms": 30000}}, 2*time.Minute, "burst_done")
+					c.R.Eval(len(calls))
+					if berr != nil {
+						c.R.Violate(caseID, "mock-burst-failed", firstLines(berr.Error(), 1), map[string]any{"proto": protoText, "stderr": firstLines(ch.Stderr(), 30)})
+						break
+					}
+					bad := 0
+					for _, r := range oas.L(bev["results"]) {
+						rm := oas.M(r)
+						if rm["panic"] != nil || rm["err"] != nil || fmt.Sprint(rm["status"]) != "200" {
+							bad++
+						}
+					}
+					if bad > 0 {
+						c.R.Violate(caseID, "mock-concurrent-requests-failed", fmt.Sprintf("%d of %d", bad, len(calls)), map[string]any{"proto": protoText, "results": bev["results"]})
+					}
+					c.R.Count("concurrent_mock_requests", len(calls))
+				}
 				// the same requests to ONE mock object called directly, the way Go code embeds the mock
 				if verb == "POST" {
 					inMD, outMD := msgDesc(u.reg, strings.TrimPrefix(m.In, ".")), msgDesc(u.reg, strings.TrimPrefix(m.Out, "."))
